@@ -23,6 +23,7 @@ use crate::PutRequestSpecific;
 /// the target, updating the routing table with closer nodes discovered in the responses, and
 /// repeating this process until no closer nodes (that aren't already queried) are found.
 #[derive(Debug)]
+#[cfg_attr(mainline_verif, derive(Clone))]
 pub(crate) struct IterativeQuery {
     pub request: RequestSpecific,
     closest: ClosestNodes,
